@@ -66,6 +66,12 @@ func c08Inspect(content string) (kind string, hook *string, err error) {
 	if err := yaml.Unmarshal([]byte(content), &m); err != nil {
 		return "", nil, err
 	}
+	// the YAML library's verdict on "parses into the expected format" (a head): e.g.
+	// "metadata: 7" is a mapping but not a head
+	var sh releaseutil.SimpleHead
+	if err := yaml.Unmarshal([]byte(content), &sh); err != nil {
+		return "", nil, err
+	}
 	if k, ok := m["kind"].(string); ok {
 		kind = k
 	}
@@ -196,6 +202,11 @@ func c08OracleSort(c c08Case, obs c08Obs) []hx.Violation {
 			}
 		} else {
 			for _, d := range c08SplitOrdered(string(f.Content)) {
+				// a leftover marker can make the document itself unreadable ("--- ---\nkind: X"):
+				// the verdict is taken on the document as it is, identity on the normalised text
+				if _, _, err := c08Inspect(string(d)); err != nil {
+					expectErr = true
+				}
 				if t := c08Norm(string(d)); t != "" {
 					docs = append(docs, t)
 				}
